@@ -76,7 +76,9 @@ def write_cfg(path, spec='Spec', constants=None, invariants=(), properties=(), c
 _RE_STATES = re.compile(r'(\d+) states generated, (\d+) distinct states found')
 _RE_DEPTH = re.compile(r'depth of the complete state graph search is (\d+)')
 _RE_INV = re.compile(r'Invariant (\S+) is violated')
-_RE_PROP = re.compile(r'(?:Action property|Temporal propert(?:y|ies)) (\S*) ?(?:is|was|were) violated')
+# TLC names a violated action property by name or by position ("Action property line 5, col 3 to line 7, col 9 of module M is violated")
+_RE_PROP = re.compile(r'(?:Action property|Temporal propert(?:y|ies)) '
+                      r'(?:line \d+, col \d+ to line \d+, col \d+ of module )?(\S*) ?(?:is|was|were) violated')
 _RE_COV = re.compile(r'^<(\w+) line \d+, col \d+ to line \d+, col \d+ of module (\w+)(?: \(\d+ \d+ \d+ \d+\))?>: (\d+):(\d+)', re.M)
 
 
